@@ -1,6 +1,7 @@
 mod alloc;
 mod check;
 mod engine;
+mod fam_c06;
 mod fam_c12;
 mod fam_c13;
 mod fam_c14;
@@ -49,7 +50,7 @@ fn main() {
             let prop = args[2].as_str();
             let tier = args.get(3).map(|s| s.as_str()).unwrap_or("quick");
             let code = match prop {
-                "C01" | "C02" | "C03" | "C04" | "C05" | "C06" | "C07" | "C08" | "C09" | "C10" | "C11" | "C16" => {
+                "C01" | "C02" | "C03" | "C04" | "C05" | "C07" | "C08" | "C09" | "C10" | "C11" | "C16" => {
                     check::check::<repl_engine::Repl>(prop, tier, "exploration", serde_json::Value::Null)
                 }
                 _ => families::check(prop, tier),
